@@ -191,7 +191,10 @@ def scenario_from_emit(rec):
     for c in rec['calls']:
         src = unparse.program(c['tree'])
         mx = c['max']
-        calls.append({'src': src, 'n': nids.index(c['nid']), 'max': UNLIMITED_REAL if mx == -1 else mx, 'spec_tree': c['tree']})
+        cl = {'src': src, 'n': nids.index(c['nid']), 'max': UNLIMITED_REAL if mx == -1 else mx, 'spec_tree': c['tree']}
+        if c.get('ast'):
+            cl['ast'] = [(a['name'], {'tree': a['tree']}) for a in c['ast']]
+        calls.append(cl)
     return {'names': names_py, 'host': host, 'calls': calls}, rec['summary']
 
 
@@ -258,7 +261,7 @@ def judge_cases(rep, cases, deviations_open, what='scenario', attribute=None):
     for c in cases:
         v = verdicts[c['tid']]
         rep.evaluations += 1
-        rep.distinct.add(json.dumps([cl['src'] for cl in c['calls']] + [cl['max'] for cl in c['calls']]))
+        rep.distinct.add(json.dumps([cl['src'] for cl in c['calls']] + [cl['max'] for cl in c['calls']] + [c.get('host'), c.get('names0'), [cl.get('ast') for cl in c['calls']]], sort_keys=True, default=str))
         if v['v'] == 'accepted':
             rep.traces += 1
             if len(rep.samples) < 6:
